@@ -5,12 +5,15 @@ import (
 	"context"
 	"fmt"
 	"io"
+	"net"
 	"net/http"
+	"sync"
 	"strconv"
 	"strings"
 	"time"
 
 	"github.com/nextdns/nextdns/resolver"
+	"github.com/nextdns/nextdns/resolver/endpoint"
 	"github.com/nextdns/nextdns/resolver/query"
 )
 
@@ -58,6 +61,96 @@ func runPost(payload []byte) string {
 	select {
 	case s := <-done:
 		return s
+	case <-time.After(3 * time.Second):
+		return "TIMEOUT"
+	}
+}
+
+
+// post53 <payload>: the same over the plain-DNS path - query.New, then the real resolver.DNS -> manager -> DNS53.resolve to a
+// loopback UDP server; the canonical output is the datagram that server received.
+type ecs53 struct {
+	pc   net.PacketConn
+	res  *resolver.DNS
+	mu   sync.Mutex
+	last []byte
+}
+
+var ecs53sys *ecs53
+
+func ecs53Start() *ecs53 {
+	if ecs53sys != nil {
+		return ecs53sys
+	}
+	pc, err := net.ListenPacket("udp", "127.0.0.1:0")
+	if err != nil {
+		return nil
+	}
+	s := &ecs53{pc: pc}
+	go func() {
+		buf := make([]byte, 65535)
+		for {
+			n, addr, err := pc.ReadFrom(buf)
+			if err != nil {
+				return
+			}
+			s.mu.Lock()
+			s.last = append([]byte{}, buf[:n]...)
+			s.mu.Unlock()
+			rep := []byte{0, 0, 0x81, 0x80, 0, 0, 0, 0, 0, 0, 0, 0}
+			if n >= 2 {
+				rep[0], rep[1] = buf[0], buf[1]
+			}
+			_, _ = pc.WriteTo(rep, addr)
+		}
+	}()
+	ep := &endpoint.DNSEndpoint{Addr: pc.LocalAddr().String()}
+	s.res = &resolver.DNS{Manager: &endpoint.Manager{
+		Providers:    []endpoint.Provider{endpoint.StaticProvider([]endpoint.Endpoint{ep})},
+		InitEndpoint: ep,
+		EndpointTester: func(endpoint.Endpoint) endpoint.Tester {
+			return func(ctx context.Context, testDomain string) error { return nil }
+		},
+	}}
+	ecs53sys = s
+	return s
+}
+
+func runPost53(payload []byte) string {
+	s := ecs53Start()
+	if s == nil {
+		return "ERR no loopback upstream"
+	}
+	p := append([]byte{}, payload...)
+	done := make(chan string, 1)
+	go func() {
+		defer func() {
+			if x := recover(); x != nil {
+				done <- fmt.Sprintf("PANIC %v", x)
+			}
+		}()
+		q, _ := query.New(p, transportPeer(payload), loopback)
+		s.mu.Lock()
+		s.last = nil
+		s.mu.Unlock()
+		ctx, cancel := context.WithTimeout(context.Background(), 2*time.Second)
+		defer cancel()
+		buf := make([]byte, 65535)
+		ctx2, cancel2 := context.WithTimeout(ctx, 150*time.Millisecond)
+		defer cancel2()
+		_, _, err := s.res.Resolve(ctx2, q, buf)
+		s.mu.Lock()
+		defer s.mu.Unlock()
+		if s.last == nil && err != nil {
+			done <- "ERR " + err.Error()
+			return
+		}
+		// (an unparsable message has no ID for the answer to match: the exchange fails, the datagram was sent all the same)
+		done <- hx(s.last)
+	}()
+	select {
+	case r := <-done:
+		return r
 	case <-time.After(3 * time.Second):
 		return "TIMEOUT"
 	}
@@ -363,6 +456,8 @@ func init() {
 			switch {
 			case len(f) == 2 && f[0] == "post":
 				c.Emit(l, runPost(unhx(f[1])))
+			case len(f) == 2 && f[0] == "post53":
+				c.Emit(l, runPost53(unhx(f[1])))
 			case len(f) > 0 && f[0] == "encq":
 				c.Emit(l, runEnc(f))
 			default:
@@ -383,11 +478,18 @@ func init() {
 			} else {
 				q := r.genQuery(r.Chance(60))
 				p := q.payload
+				mutated := false
 				if r.Chance(15) {
 					p, _ = r.mutate(p)
+					mutated = true
 				}
-				c.Stat("op:post")
-				run("post " + hx(p))
+				if !mutated && len(p) >= 2 && len(p) <= 1400 && r.Chance(40) {
+					c.Stat("op:post53")
+					run("post53 " + hx(p))
+				} else {
+					c.Stat("op:post")
+					run("post " + hx(p))
+				}
 			}
 		}
 		return nil
